@@ -10,6 +10,7 @@ import (
 	"time"
 
 	"github.com/icon-project/goloop/common"
+	"github.com/icon-project/goloop/consensus"
 	"github.com/icon-project/goloop/module"
 	"github.com/icon-project/goloop/test"
 )
@@ -63,6 +64,15 @@ func (s *sim) drainOutboxes() bool {
 func (s *sim) route(src *node, m outMsg) {
 	s.orc.onWire(src, m.proto, m.sub, m.data)
 	s.byz.learn(m.sub, m.proto, m.data)
+	if s.cfg.ReplayOld && (m.proto == module.ProtoConsensus || m.proto == module.ProtoConsensusSync) && len(m.data) < 4096 {
+		// pool of old traffic for the "very late duplicate" fault
+		if len(s.recent) < 400 {
+			s.recent = append(s.recent, heldMsg{src: src.idx, m: m})
+		} else {
+			s.recent[s.recentN%400] = heldMsg{src: src.idx, m: m}
+		}
+		s.recentN++
+	}
 	var dsts []*node
 	switch m.kind {
 	case sendUnicast:
@@ -119,6 +129,10 @@ func (s *sim) send(src, dst *node, m outMsg, released bool) {
 		if c > 0 {
 			lat += time.Duration(s.tape.Range("duplat", 0, 200)) * time.Millisecond
 		}
+		if s.tape.Permille("slow", s.cfg.SlowPm) {
+			lat += time.Duration(s.tape.Range("slowlat", 300, 5000)) * time.Millisecond
+			s.rc.Fault("slow_delivery")
+		}
 		data := m.data
 		if s.tape.Permille("corrupt", s.cfg.CorruptPm) {
 			data = append([]byte(nil), data...)
@@ -157,6 +171,64 @@ func (s *sim) deliver(src, dst *node, m outMsg) {
 	_, _ = h.reactor.OnReceive(m.sub, m.data, src.peerID)
 }
 
+// replayOld re-delivers a few messages that were on the wire earlier (any
+// sender, any age up to the pool size) to tape-chosen nodes: arbitrarily late
+// duplicates, e.g. the votes of a round everybody has left long ago.
+func (s *sim) replayOld() {
+	t := s.tape
+	if len(s.recent) == 0 {
+		return
+	}
+	k := 1 + t.Choose("replay.n", 5)
+	for i := 0; i < k; i++ {
+		// bias towards old entries: they are the ones ordinary duplication never produces
+		h := s.recent[t.Choose("replay.which", len(s.recent))]
+		dst := s.nodes[t.Choose("replay.dst", len(s.nodes))]
+		src := s.nodes[h.src]
+		if dst == src {
+			continue
+		}
+		mm := h.m
+		mm.kind, mm.dst = sendUnicast, dst.peerID
+		s.rc.Fault("late_duplicate")
+		s.send(src, dst, mm, true)
+	}
+	// a burst: every vote-carrying message of one old (height, round) to one victim
+	if t.Permille("replay.burst", 300) {
+		v := s.nodes[t.Choose("replay.victim", len(s.nodes))]
+		pivot := s.recent[t.Choose("replay.pivot", len(s.recent))]
+		key := voteKeyOf(pivot.m)
+		if key != "" {
+			n := 0
+			for _, h := range s.recent {
+				if voteKeyOf(h.m) == key && s.nodes[h.src] != v {
+					mm := h.m
+					mm.kind, mm.dst = sendUnicast, v.peerID
+					s.send(s.nodes[h.src], v, mm, true)
+					n++
+				}
+			}
+			s.rc.Fault("late_round_burst")
+			s.rc.Event("REPLAY-BURST %s x%d to n%d", key, n, v.idx)
+		}
+	}
+}
+
+// voteKeyOf returns "height/round/type" of a single vote message, "" otherwise.
+func voteKeyOf(m outMsg) string {
+	if m.proto != module.ProtoConsensus || m.sub != consensus.ProtoVote {
+		return ""
+	}
+	msg, err := consensus.UnmarshalMessage(uint16(m.sub), m.data)
+	if err != nil {
+		return ""
+	}
+	if vm, ok := msg.(*consensus.VoteMessage); ok {
+		return fmt.Sprintf("%d/%d/%d", vm.Height, vm.Round, vm.Type)
+	}
+	return ""
+}
+
 // flushObs runs observations queued by SUT goroutines, on the driver.
 func (s *sim) flushObs() bool {
 	s.mu.Lock()
@@ -180,7 +252,7 @@ func (s *sim) submitTx(kind int) {
 		// validator set change: drop or re-add the last validator (never below 4 where f>0)
 		var vals []module.Address
 		cur := s.orc.currentValidators()
-		if len(cur) > 1 && len(cur) == len(s.nodes) {
+		if len(cur) > 2 && len(cur) == len(s.nodes) {
 			drop := len(cur) - 1
 			if s.cfg.F > 0 && (len(cur)-1) < 3*s.cfg.F+1 {
 				drop = -1
@@ -251,6 +323,11 @@ func (s *sim) mainLoop() {
 			streak++
 			continue
 		}
+		if streak >= 64 {
+			// simulated computation is free, so a node can loop without the clock ever
+			// moving; charge one millisecond per 64 critical sections
+			time.Sleep(time.Millisecond)
+		}
 		streak = 0
 		if s.handleCrashes() {
 			progressed = true
@@ -311,7 +388,7 @@ func (s *sim) done(now time.Duration) bool {
 	// long simulated time (e.g. quorum lost to a partition) just ends the run
 	if fin := s.rc.Metrics["finalizations"] + s.rc.Faults["restart"] + s.rc.Faults["heal"]; fin != s.lastProgressCount {
 		s.lastProgressCount, s.lastProgressAt = fin, now
-	} else if now-s.lastProgressAt > 20*time.Second {
+	} else if now-s.lastProgressAt > 12*time.Second {
 		s.rc.Probe("stalled")
 		s.rc.Event("STALLED at %v", now)
 		return true
